@@ -290,8 +290,8 @@ impl<'de> De<'de> {
                 Kind::U32 => v.visit_u32(bits as u32),
                 Kind::U64 => v.visit_u64(bits),
                 Kind::Bool => v.visit_bool(bits != 0),
-                Kind::I128 => v.visit_i128(bits as i64 as i128),
-                Kind::U128 => v.visit_u128(bits as u128),
+                Kind::I128 => v.visit_i128(crate::node::wide::decode(bits)),
+                Kind::U128 => v.visit_u128(crate::node::wide::decode(bits) as u128),
             },
             NumDelivery::Widened => match kind {
                 Kind::F32 => v.visit_f64(f32::from_bits(bits as u32) as f64),
@@ -299,8 +299,21 @@ impl<'de> De<'de> {
                 Kind::I8 | Kind::I16 | Kind::I32 | Kind::I64 => v.visit_i64(bits as i64),
                 Kind::U8 | Kind::U16 | Kind::U32 | Kind::U64 => v.visit_u64(bits),
                 Kind::Bool => v.visit_bool(bits != 0),
-                Kind::I128 => v.visit_i64(bits as i64),
-                Kind::U128 => v.visit_u64(bits),
+                // a format without typed integers hands over the narrowest of its integer types
+                Kind::I128 => {
+                    let x = crate::node::wide::decode(bits);
+                    match i64::try_from(x) {
+                        Ok(n) => v.visit_i64(n),
+                        Err(_) => v.visit_i128(x),
+                    }
+                }
+                Kind::U128 => {
+                    let x = crate::node::wide::decode(bits) as u128;
+                    match u64::try_from(x) {
+                        Ok(n) => v.visit_u64(n),
+                        Err(_) => v.visit_u128(x),
+                    }
+                }
             },
         }
     }
